@@ -204,8 +204,8 @@ def vlex_not_covered(spec):
     return sorted('%s/%s' % (d, cg) for d in spec.get('defs_thorough', spec['defs']) for cg in spec.get('codegens', ('tailcall', 'state_machine'))
                   if (costs.get('%s/%s' % (d, cg)) or {}).get('status') != 'ok')
 
-VLEX_ALL = ['B1', 'B2', 'B3', 'B4', 'B5', 'B6', 'B7', 'B8', 'E1', 'E3', 'S1', 'S3', 'L1', 'I2', 'P2', 'P2T', 'M1B', 'M2B', 'O3', 'O3A', 'Q3', 'Q4',
-            'L2', 'I1', 'P1', 'P1T', 'Q2', 'U1', 'U2', 'E2']
+VLEX_ALL = ['B1', 'B2', 'B3', 'B4', 'B5', 'B6', 'B7', 'B8', 'E1', 'E3', 'S1', 'S2', 'S3', 'L1', 'I2', 'P2', 'P2T', 'M1B', 'M2B', 'O3', 'O3A', 'Q3', 'Q4',
+            'L2', 'I1', 'P1', 'P1T', 'Q1', 'Q2', 'U1', 'U2', 'E2']
 VLEX_NOTE = ('V-lex: the text logos_codegen::generate emits (obtained through /repo\'s logos-cli on every run) for the corpus definitions %s, '
              'both code generators where the state-machine loop stays within the solver budget, is proved - for ALL inputs, no length bound - to satisfy the '
              'trait-level contract LEX and the LexerInternal preconditions, incl. termination (decreases), no arithmetic overflow, no out-of-bounds table index. '
@@ -339,7 +339,7 @@ PLAN = {
         explanation='same spec, two feature sets',
     ),
     'C07': dict(
-        vlex=dict(defs=['Q2', 'Q3', 'Q4', 'B1', 'B2', 'E1', 'U1'], codegens=('tailcall',), canary_defs=['Q2']),
+        vlex=dict(defs=['Q1', 'Q2', 'Q3', 'Q4', 'B1', 'B2', 'E1', 'S2', 'U1'], codegens=('tailcall',), canary_defs=['Q2']),
         level='model_checking', engine='verus+kani',
         verus=[('v_src', BOTH)],
         twins=SRC_TWINS,
